@@ -105,12 +105,36 @@ static void hook(int point, const char* name) {
 }
 // directed scenarios (tags R and X): a factory that loads the name it is asked for itself (allowed: the load mutex
 // is recursive), and one that throws
+static std::atomic<bool> g_atexit_mode(false);
+static std::string* g_good_leaked = nullptr;
+struct AtExitState {
+  std::atomic<bool> stop{false};
+  std::atomic<long> bad{0}, ops{0};
+  std::vector<std::thread> threads;
+  std::vector<std::string> names;
+  std::vector<time_zone> ref;
+  std::vector<bool> refok;
+  std::string out;
+};
+static AtExitState* g_ax = nullptr;
+static void atexit_handler() {
+  // runs after the destructors of everything that was constructed later (e.g. a function-local static of the library)
+  std::this_thread::sleep_for(std::chrono::milliseconds(150));
+  g_ax->stop = true;
+  for (auto& t : g_ax->threads) t.join();
+  FILE* f = fopen(g_ax->out.c_str(), "w");
+  if (f) { fprintf(f, "{\"e\":\"AtExit\",\"ops\":%ld,\"bad\":%ld}\n", g_ax->ops.load(), g_ax->bad.load()); fclose(f); }
+  _exit(0);
+}
 static thread_local int t_depth = 0;
 static thread_local time_zone t_nested;
 static thread_local bool t_nested_ok = false;
 static std::atomic<int> g_x_inside(0), g_x_overlap(0), g_x_wait(0);
 static std::unique_ptr<ZoneInfoSource> Factory(
     const std::string& name, const std::function<std::unique_ptr<ZoneInfoSource>(const std::string&)>&) {
+  if (g_atexit_mode.load()) {   // process-teardown scenario: no bookkeeping in objects that are being destroyed
+    return strcmp(kind_of(name), "good") == 0 ? std::unique_ptr<ZoneInfoSource>(new MemSource(*g_good_leaked)) : nullptr;
+  }
   {
     std::string b0 = base_of(name);
     if (b0.compare(0, 2, "re") == 0) {          // re-entrant: reA = both get data, reB = the outer call gets none
@@ -303,6 +327,32 @@ int main(int argc, char** argv) {
   std::ifstream in(argv[1]);
   g_out = fopen(argv[2], "w");
   { std::ifstream zf(argv[3], std::ios::binary); g_good.assign((std::istreambuf_iterator<char>(zf)), std::istreambuf_iterator<char>()); }
+  // --atexit: threads keep loading and comparing zones while the process is exiting (main has returned, static
+  // destructors are running): the library keeps its state alive on purpose, so nothing may change for them
+  if (argc > 4 && strcmp(argv[4], "--atexit") == 0) {
+    g_ax = new AtExitState;
+    g_ax->out = argv[2];
+    atexit(atexit_handler);
+    { std::ifstream zf(argv[3], std::ios::binary); g_good_leaked = new std::string((std::istreambuf_iterator<char>(zf)), std::istreambuf_iterator<char>()); }
+    g_atexit_mode = true;
+    g_ax->names = {"AX/a", "AX/b", "Fixed/UTC+01:00:00", "AX/bad", "UTC"};
+    for (const std::string& n : g_ax->names) { time_zone tz; bool ok = load_time_zone(n, &tz); g_ax->ref.push_back(tz); g_ax->refok.push_back(ok); }
+    for (int i = 0; i < 4; ++i) {
+      g_ax->threads.emplace_back([]() {
+        AtExitState* S = g_ax;
+        while (!S->stop.load()) {
+          for (size_t k = 0; k < S->names.size(); ++k) {
+            time_zone tz;
+            bool ok = load_time_zone(S->names[k], &tz);
+            if (ok != S->refok[k] || !(tz == S->ref[k])) ++S->bad;
+            ++S->ops;
+          }
+        }
+      });
+    }
+    std::this_thread::sleep_for(std::chrono::milliseconds(40));
+    return 0;   // exit() begins
+  }
   // --firstuse: the very first calls into the library made by this process, from 8 threads released together:
   // all of them must see one and the same UTC value, and a name that cannot be loaded fails for all of them
   if (argc > 4 && strcmp(argv[4], "--firstuse") == 0) {
